@@ -295,20 +295,22 @@ def n2w_job(args):
     st = dict(problems=[], ops=0)
     n = 60 if tier == "quick" else 300
 
+    pipelined = idx % 2 == 1      # every other run: the master offers its next command while the current access is still pending
+                                  # (what the crossbar / DMA masters do); the bridge must not let it disturb the access in flight
+
     def gen():
-        k = 0; cv = 0; cur = None; wv = 0; phase = "idle"; ackdelay = 0; prev = None; expect_r = None
+        k = 0; cv = 0; cur = None; nxt = None; wv = 0; phase = "idle"; ackdelay = 0; prev = None
         for t in range(60 * n):
             if prev is not None:
                 o = ((yield port.cmd.ready), (yield port.wdata.ready), (yield port.rdata.valid), (yield port.rdata.data), (yield wb.cyc), (yield wb.stb), (yield wb.we),
                      (yield wb.adr), (yield wb.sel), (yield wb.dat_w))
                 obs.append("%d %d %d %d %d %d %d %d %d %d" % (o[0], o[1], o[2], o[3] if o[2] else 0, o[4], o[5], o[6], o[7] if o[4] else 0, o[8] if o[4] else 0, o[9] if o[4] else 0))
-                if prev["cv"] and o[0]:
-                    cv = 0; phase = "data"
                 if prev["ack"]:
                     # the slave acknowledged: check what was on the bus
                     exp_adr = (cur["addr"] * nb + base if byte_addr else cur["addr"] + base // nb) & 0xffffffff & ((1 << len(wb.adr)) - 1)
                     if o[7] != exp_adr:
-                        st["problems"].append("Wishbone address 0x%x for native address %d (expected 0x%x)" % (o[7], cur["addr"], exp_adr))
+                        st["problems"].append("Wishbone address 0x%x for native address %d (expected 0x%x)%s" % (
+                            o[7], cur["addr"], exp_adr, " - the next command (address %d) was already offered" % nxt["addr"] if nxt else ""))
                     if cur["we"]:
                         if not o[6] or o[9] != cur["data"] or o[8] != cur["sel"]:
                             st["problems"].append("Wishbone write carries we=%d data=0x%x sel=0x%x for native write data=0x%x we=0x%x" % (o[6], o[9], o[8], cur["data"], cur["sel"]))
@@ -321,9 +323,13 @@ def n2w_job(args):
                     phase = "idle"; wv = 0; k += 1
                     if k >= n:
                         break
-            if phase == "idle" and not cv and rnd.random() < 0.6:
-                cur = dict(we=rnd.randint(0, 1), addr=rnd.randrange(1 << aw), data=rnd.getrandbits(dw), sel=rnd.getrandbits(nb))
-                cv = 1; ackdelay = rnd.randint(0, 6)
+                if prev["cv"] and o[0]:
+                    if phase != "idle":
+                        st["problems"].append("a command was accepted while the previous access is still pending")
+                    cur = nxt; nxt = None; cv = 0; phase = "data"; ackdelay = rnd.randint(0, 6)
+            if nxt is None and (phase == "idle" or pipelined) and rnd.random() < 0.6:
+                nxt = dict(we=rnd.randint(0, 1), addr=rnd.randrange(1 << aw), data=rnd.getrandbits(dw), sel=rnd.getrandbits(nb))
+                cv = 1
             if phase == "data" and cur["we"] and not wv and rnd.random() < 0.6:
                 wv = 1
             ack = 0; datr = 0
@@ -334,10 +340,11 @@ def n2w_job(args):
                 else:
                     ack = 1; datr = rnd.getrandbits(dw)
             prev = dict(cv=cv, ack=ack, datr=datr)
-            yield port.cmd.valid.eq(cv); yield port.cmd.we.eq(cur["we"] if cur else 0); yield port.cmd.addr.eq(cur["addr"] if cur else 0)
+            c_ = nxt if cv else None
+            yield port.cmd.valid.eq(cv); yield port.cmd.we.eq(c_["we"] if c_ else 0); yield port.cmd.addr.eq(c_["addr"] if c_ else 0)
             yield port.wdata.valid.eq(wv); yield port.wdata.data.eq(cur["data"] if (cur and wv) else 0); yield port.wdata.we.eq(cur["sel"] if (cur and wv) else 0)
             yield wb.ack.eq(ack); yield wb.dat_r.eq(datr)
-            lines.append("%d %d %d %d %d %d %d %d" % (cv, cur["we"] if cur else 0, cur["addr"] if cur else 0, wv, cur["data"] if (cur and wv) else 0, cur["sel"] if (cur and wv) else 0, ack, datr))
+            lines.append("%d %d %d %d %d %d %d %d" % (cv, c_["we"] if c_ else 0, c_["addr"] if c_ else 0, wv, cur["data"] if (cur and wv) else 0, cur["sel"] if (cur and wv) else 0, ack, datr))
             yield
     run_simulation(dut, gen())
     mo = core.run_driver("wbn2w", lines)[2:]
